@@ -147,7 +147,7 @@ def obligations(tier, seed):
     import lemma as LM
     from props import c12_lemmas as CL
     obs.append(Ob(id='C12.lemmas.mulmod', prop='C12', group='C12.lemmas', kind='S', budget=600, body='', prelude='', wrappers=[], inputs=[],
-                  dfcc=dict(tool='lean', text=LM.lean_file(CL.MULMOD, CL.MULMOD_PRELUDE)),
+                  dfcc=dict(tool='lean', text=LM.lean_file(CL.MULMOD, CL.MULMOD_PRELUDE + CL.SPEC_PRELUDE)),
                   contract='Lean 4 + Mathlib accept: ' + '; '.join('%s (%s)' % (l.name, l.doc) for l in CL.MULMOD)))
     mm = M['mul_mod']
     mm_pre = 'v_n > 0 && v_b < v_n && (v_a < v_n || (v_a < 4294967296ULL && v_b < 4294967296ULL))'
@@ -156,12 +156,15 @@ def obligations(tier, seed):
   ASSUME(n > 0 && b < n && (a < n || (a < 4294967296ULL && b < 4294967296ULL)));
   ASSUME(%s);   /* lemma mm_fast at (a, b, n) */
   ASSUME(%s);   /* lemma mm_slow at (a, b, n) */
+  ASSUME(%s);   /* lemma mm_facts at (a, b, n) */
   uint64_t r = TARGET(a, b, n);
   CHECK(r == SPEC_mulmod(a, b, n), "result-is-the-exact-residue-a-times-b-mod-n");
   CHECK(r < n, "result-is-below-n");
-""" % (CL.mm_fast.inst(a='a', b='b', n='n'), CL.mm_slow.inst(a='a', b='b', n='n')),
+""" % (CL.mm_fast.inst(a='a', b='b', n='n'), CL.mm_slow.inst(a='a', b='b', n='n'), CL.mm_facts.inst(a='a', b='b', n='n')),
                   kind='L', promote=False, wrap=True, budget=300, defs=('LL2C_UF_ARITH=1',), needs=('C12.lemmas.mulmod',),
                   dfcc=dict(target=mm, replace=[M['add_mod']],
+                            native_search=dict(pre='n > 0 && b < n && (a < n || (a < 4294967296ULL && b < 4294967296ULL))', call='au::detail::mul_mod(a, b, n)', ret='uint64_t',
+                                               post='r == (uint64_t)(((u128)a * b) % n)'),
                             contracts={mm: dict(requires=[mm_pre], ensures=['%s == SPEC_mulmod(v_a, v_b, v_n)' % RV, '%s < v_n' % RV], assigns='',
                                                 recursive_stub=True, rec_variant='v_a'),
                                        M['add_mod']: CONTRACTS['add_mod']}),
@@ -187,10 +190,13 @@ def obligations(tier, seed):
 """ % CL.pm_entry.inst(b0='base', e0='exp', n='n'),
                   kind='L', promote=False, wrap=True, budget=300, defs=('LL2C_UF_ARITH=1',), needs=('C12.lemmas.powmod',),
                   dfcc=dict(target=pm, replace=[mm],
+                            native_search=dict(pre='n > 1', call='au::detail::pow_mod(base, exp, n)', ret='uint64_t', post='r == ref_pow(base, exp, n)',
+                                               helpers='static uint64_t ref_pow(uint64_t b, uint64_t e, uint64_t n) { u128 r = 1 % n, x = b % n; while (e) { if (e & 1) r = r * x % n; x = x * x % n; e >>= 1; } return (uint64_t)r; }'),
                             contracts={pm: dict(requires=['v_n > 1'], ensures=[], assigns='',
                                                 loops={0: dict(invariant=pm_inv, decreases='m_exp_addr', assigns='m_result, m_base_addr, m_exp_addr',
                                                                lemmas=[CL.pm_step.inst(r='m_result', b='m_base_addr', e='m_exp_addr', n='m_n_addr'),
-                                                                       CL.pm_exit.inst(r='m_result', b='m_base_addr', n='m_n_addr')])}),
+                                                                       CL.pm_exit.inst(r='m_result', b='m_base_addr', n='m_n_addr'),
+                                                                       CL.mm_facts.inst(a='m_result', b='m_base_addr', n='m_n_addr'), CL.mm_facts.inst(a='m_base_addr', b='m_base_addr', n='m_n_addr')])}),
                                        mm: mm_exact}),
                   contract='pow_mod(base,exp,n), n > 1, returns EXACTLY base^exp mod n: loop invariant result * (base^exp mod n) = base0^exp0 (mod n), result < n, base < n; '
                            'every mul_mod call meets mul_mod\'s precondition and mul_mod is replaced by its EXACT contract (C12.exact.mul_mod); base %= n does not divide by zero; '
@@ -207,13 +213,71 @@ def obligations(tier, seed):
 """,
                   kind='L', promote=False, wrap=True, budget=300, defs=('LL2C_UF_ARITH=1',), needs=('C12.lemmas.gcd',),
                   dfcc=dict(target=M['gcd'],
+                            native_search=dict(pre='true', call='au::detail::gcd(a, b)', ret='uint64_t', post='r == ref_gcd(a, b)',
+                                               helpers='static uint64_t ref_gcd(uint64_t a, uint64_t b) { if (!a || !b) return a | b; int s = __builtin_ctzll(a | b); a >>= __builtin_ctzll(a); '
+                                                       'do { b >>= __builtin_ctzll(b); if (a > b) { uint64_t t = a; a = b; b = t; } b -= a; } while (b); return a << s; }'),
                             contracts={M['gcd']: dict(requires=[], ensures=[], assigns='',
                                                       loops={0: dict(invariant=['SPEC_gcd(m_a_addr, m_b_addr) == SPEC_gcd(vf_ghost[0], vf_ghost[1])'],
                                                                      decreases='m_b_addr', assigns='m_a_addr, m_b_addr, m_remainder',
-                                                                     lemmas=[CL.g_step.inst(a='m_a_addr', b='m_b_addr'), CL.g_exit.inst(a='m_a_addr')])})}),
+                                                                     lemmas=[CL.g_step.inst(a='m_a_addr', b='m_b_addr'), CL.g_exit.inst(a='m_a_addr'),
+                                                                             CL.g_facts.inst(a='m_a_addr', b='m_b_addr'), CL.g_facts.inst(a='m_b_addr', b='m_a_addr'),
+                                                                             CL.g_facts.inst(a='LL2C_UREM64(m_a_addr, m_b_addr)', b='m_b_addr')])})}),
                   contract='gcd(a,b) returns EXACTLY the greatest common divisor for all 64-bit a, b: loop invariant gcd(a,b) == gcd(a0,b0), no division by zero, terminates '
                            '(decreases b). Arithmetic by lemmas g_step, g_exit (Lean; Nat.gcd of Mathlib is the specification)',
                   functions_under_contract=('au::detail::gcd',)))
+    obs.append(Ob(id='C12.lemmas.is_perfect_square', prop='C12', group='C12.lemmas', kind='S', budget=600, body='', prelude='', wrappers=[], inputs=[],
+                  dfcc=dict(tool='lean', text=LM.lean_file(CL.SQUARE, CL.SQUARE_PRELUDE)),
+                  contract='Lean 4 + Mathlib accept: ' + '; '.join('%s (%s)' % (l.name, l.doc) for l in CL.SQUARE)))
+    ips = M['is_perfect_square']
+    obs.append(Ob(id='C12.exact.is_perfect_square', prop='C12', group='C12', prelude=PRE, wrappers=WRAPS, inputs=[('uint64_t', 'n')],
+                  body="""
+  ASSUME(%s);   /* lemma sq_small at n */
+  ASSUME(%s);   /* lemma sq_init at n */
+  _Bool r = TARGET(n);
+  CHECK((r != 0) == (SPECP_issquare(n) != 0), "answers-true-exactly-for-perfect-squares");
+""" % (CL.sq_small.inst(n='n'), CL.sq_init.inst(n='n')),
+                  kind='L', promote=False, wrap=True, budget=300, defs=('LL2C_UF_ARITH=1',), needs=('C12.lemmas.is_perfect_square',),
+                  dfcc=dict(target=ips,
+                            native_search=dict(pre='true', call='au::detail::is_perfect_square(n)', ret='bool', post='r == ref_sq(n)', seeds=[(10785637507345693793,), (17179869188,)],
+                                               helpers='#include <cmath>\nstatic bool ref_sq(uint64_t n) { uint64_t s = (uint64_t)sqrtl((long double)n); while ((u128)s * s > n) --s; '
+                                                       'while ((u128)(s + 1) * (s + 1) <= n) ++s; return (u128)s * s == n; }'),
+                            contracts={ips: dict(requires=[], ensures=[], assigns='',
+                                                 loops={0: dict(invariant=['m_n_addr >= 2 && m_prev >= 1 && m_prev <= m_n_addr / 2 && SPEC_isqrt(m_n_addr) <= m_prev'],
+                                                                decreases='m_prev', assigns='m_prev, m_curr, m_retval',
+                                                                lemmas=[CL.sq_step.inst(n='m_n_addr', p='m_prev')])})}),
+                  contract='is_perfect_square(n) is true EXACTLY when n is a perfect square, for every 64-bit n: Newton iteration invariant prev >= max(1, floor sqrt n), prev <= n/2; '
+                           'prev + n/prev does not wrap, no division by zero, and NO unsigned product is formed (the square test is by division; a wrapping curr*curr was the defect fixed in 966ef0a: '
+                           'with the product, no lemma justifies `return true` and this obligation fails); terminates (decreases prev). Arithmetic by lemmas sq_small, sq_init, sq_step (Lean; Nat.sqrt of Mathlib)',
+                  functions_under_contract=('au::detail::is_perfect_square',)))
+    obs.append(Ob(id='C12.lemmas.multiplicity', prop='C12', group='C12.lemmas', kind='S', budget=600, body='', prelude='', wrappers=[], inputs=[],
+                  dfcc=dict(tool='lean', text=LM.lean_file(CL.MULT, '')),
+                  contract='Lean 4 + Mathlib accept: ' + '; '.join('%s (%s)' % (l.name, l.doc) for l in CL.MULT)))
+    mu = M['multiplicity']
+    obs.append(Ob(id='C12.exact.multiplicity', prop='C12', group='C12', prelude=PRE, wrappers=WRAPS, inputs=[('uint64_t', 'f'), ('uint64_t', 'n')],
+                  body="""
+  ASSUME(n > 0 && f > 1);
+  vf_ghost[0] = f; vf_ghost[1] = n;
+  ASSUME(%s);   /* lemma mu_init at (f, n) */
+  uint64_t r = TARGET(f, n);
+  uint64_t cofactor = ll2c_exit_m_n_addr;   /* the function's own n at return, exposed as ghost state */
+  CHECK(SPECP_powfits(f, r) && !LL2C_UMULOVF64(SPEC_pow(f, r), cofactor) && LL2C_UMUL64(SPEC_pow(f, r), cofactor) == n, "factor-to-the-result-times-cofactor-is-n");
+  CHECK(LL2C_UREM64(cofactor, f) != 0, "cofactor-is-not-divisible-by-factor");
+""" % CL.mu_init.inst(f='f', n='n'),
+                  kind='L', promote=False, wrap=True, budget=300, defs=('LL2C_UF_ARITH=1',), needs=('C12.lemmas.multiplicity',),
+                  dfcc=dict(target=mu,
+                            native_search=dict(pre='n > 0 && f > 1', call='au::detail::multiplicity(f, n)', ret='uint64_t', post='ref_mult_ok(f, n, r)',
+                                               helpers='static bool ref_mult_ok(uint64_t f, uint64_t n, uint64_t r) { u128 p = 1; for (uint64_t i = 0; i < r; ++i) { p *= f; if (p > n) return false; } '
+                                                       'return n % (uint64_t)p == 0 && (n / (uint64_t)p) % f != 0; }'),
+                            contracts={mu: dict(requires=[], ensures=[], assigns='', expose=['m_n_addr'],
+                                                loops={0: dict(invariant=['m_factor_addr == vf_ghost[0] && m_factor_addr > 1 && m_n_addr > 0',
+                                                                          'SPECP_powfits(m_factor_addr, m_m) && !LL2C_UMULOVF64(SPEC_pow(m_factor_addr, m_m), m_n_addr) '
+                                                                          '&& LL2C_UMUL64(SPEC_pow(m_factor_addr, m_m), m_n_addr) == vf_ghost[1]'],
+                                                               decreases='m_n_addr', assigns='m_m, m_n_addr',
+                                                               lemmas=[CL.mu_step.inst(f='m_factor_addr', m='m_m', n='m_n_addr', n0='vf_ghost[1]')])})}),
+                  contract='multiplicity(factor, n), n > 0, factor > 1, returns EXACTLY the exponent m with factor^m * cofactor == n and factor not dividing cofactor (the cofactor is the '
+                           'function\'s own n at return): loop invariant factor^m * n == n0 without wrap; ++m does not wrap (m < 64), no division by zero, terminates (decreases n). '
+                           'Arithmetic by lemmas mu_init, mu_step (Lean)',
+                  functions_under_contract=('au::detail::multiplicity',)))
     # find_prime_factor: every return path hands out a table prime that divides n, n itself (trial division exhausted or is_prime(n)), or a value for which
     # is_prime has just answered true.  is_prime is under its purity contract (a deterministic predicate), find_pollard_rho_factor under `no guarantee at all`.
     fpf = M['find_prime_factor']; ISP = 'f_' + M['is_prime']
